@@ -23,6 +23,8 @@ def d1(ctx, prog):
     setter = ci.setters.get('bin_edges')
     if setter is None:
         raise AnalysisError('bin_edges setter not found')
+    from .. import inline
+    setter = inline.inlined(prog, setter)
     pm = astutil.parents(setter.node)
     raising_ifs = [n for n in ast.walk(setter.node) if isinstance(n, ast.If) and any(isinstance(b, ast.Raise) for b in n.body)]
     # uniformity: tests mentioning diff
